@@ -37,6 +37,14 @@ func runC08(c *Ctx) {
 	c.ruleCounterViews("R08.4")
 	c.ruleEmptyBatch("R08.5")
 	c.rulePlainStatusStores("R08.6")
+	// a batch item is counted off only by the Close that won its transition
+	c.ruleCloseEffectsNeedWin("R08.7")
+	// Purge counts off exactly what Values() lists: the snapshot must be complete
+	c.Rep.rule("R08.8", "E2 path + loop bounds", "Values() of the FIFO queue lists every stored item: early return only when Len()==0, each segment walked over its own bounds", 1)
+	c.ruleValuesComplete("R08.8")
+	// every result of a batch is tagged with the id of its own item: each item's configs are loaded for that item
+	c.Rep.rule("R08.9", "def-use", "batch items get job configs loaded per item by loadJobConfigs (no configs value shared between items, no option applied in place)", 6)
+	c.ruleJobConfigsPerJob("R08.9", c.P.FuncByKey("loadJobConfigs"))
 }
 
 func (c *Ctx) ruleLastFinisher(rule string) {
@@ -229,6 +237,9 @@ func runC09(c *Ctx) {
 	c.ruleBarrierComposition("R09.5")
 	// "in queue order after Restart": one dispatcher at a time, also across the Restart
 	c.ruleDispatcherJoined("R09.6")
+	// Restart must not be undone by the previous run's context listener (the worker would end up Stopped, its pending jobs never run)
+	c.ruleContextRetiredAtomically("R09.7")
+	c.ruleOnlyResumeRestartLeave("R09.8")
 }
 
 func (c *Ctx) ruleReserveThenCheck(rule string) {
@@ -351,5 +362,25 @@ func (c *Ctx) ruleSubmitIgnoresStatus(rule string) {
 		em := c.emitsSync(f)
 		c.Rep.check(!em["wstatus?"], rule, f.Short(), "submission depends on the worker status", c.P.pos(f.Body), "submission does not read the worker status",
 			f.Short()+" reads the worker status: submissions to a paused or stopped worker must still be accepted and stay pending")
+	}
+}
+
+// ruleOnlyResumeRestartLeave: from the lifecycle table — a paused or stopped worker is set running again (and a
+// dispatcher spawned) only by Resume and Restart; no other control call, and in particular no start() reached from a
+// Bind*/With* method, does so.
+func (c *Ctx) ruleOnlyResumeRestartLeave(rule string) {
+	c.Rep.rule(rule, "E3 lifecycle table", "from Paused/Stopped only Resume and Restart end in Running or spawn a dispatcher", 10)
+	t := c.lifecycle()
+	for _, m := range t.Methods {
+		if m == "Resume" || m == "Restart" {
+			continue
+		}
+		for _, s := range []string{"Paused", "Stopped"} {
+			for _, o := range t.cell(m, s) {
+				good := o.Final != "Running" && !o.has("go:dispatcher") && !o.has("wstatus:Running")
+				c.Rep.check(good, rule, m, "leaves "+s+" without Resume/Restart", o.End, m+" from "+s+" stays "+o.Final,
+					fmt.Sprintf("%s called on a %s worker sets it running again (or spawns a dispatcher): pending jobs start without Resume or Restart (%s)", m, strings.ToLower(s), o))
+			}
+		}
 	}
 }
